@@ -601,7 +601,8 @@ def none_and_empty_guards(ctx):
                                              any(isinstance(d.ast, ast.Assign) and isinstance(d.ast.value, ast.ListComp) for d in dom.assignments_to(g, x.value.id))
                                              for e in n.exprs() for x in walk_local(e))]
     for n in subs:
-        x = [x for e in n.exprs() for x in walk_local(e) if isinstance(x, ast.Subscript) and isinstance(x.value, ast.Name)][0]
+        x = [x for e in n.exprs() for x in walk_local(e) if isinstance(x, ast.Subscript) and isinstance(x.value, ast.Name) and isinstance(x.ctx, ast.Load) and
+             any(isinstance(d.ast, ast.Assign) and isinstance(d.ast.value, ast.ListComp) for d in dom.assignments_to(g, x.value.id))][0]
         lst = x.value.id
         gate = [t for t in g.stmt_nodes() if t.kind == 'test' and ((unparse(t.ast) == lst and dom.branch_raises(g, t, 'F')) or
                                                                  (unparse(t.ast) == f"len({lst}) == 0" and dom.branch_raises(g, t, 'T')))]
